@@ -235,6 +235,7 @@ json damaged_plan(Rng &r, int tier)
 	sg.pcb = r.chance(1, 3);
 	sg.vcb = r.chance(1, 4);
 	sg.keystrval = true;
+	sg.simple = true;
 	sg.max_opts = 6;
 	json schema = gen_schema(r, sg);
 	plan["schemas"] = json::array({schema});
